@@ -217,4 +217,183 @@ theorem reachable_cases {s : Sys} (w : WF s) {i : Nat} (h : reachable s i) :
   · exact .inl ⟨hr, w.roots_parent _ hr⟩
   · exact .inr ⟨p, w.contents_parent p i hi, ⟨r, hr, hdp⟩, hi⟩
 
+/-! ### addresses -/
+
+theorem Kind.ownPage_of_isModule {k : Kind} (h : k.isModule = true) : k.ownPage = true := by
+  cases k <;> simp_all [Kind.isModule, Kind.ownPage]
+
+theorem pageFile_inj {s : Sys} (w : WF s) {p q : Nat} (hp : p < s.n) (hq : q < s.n)
+    (h : pageFile s p = pageFile s q) : p = q := by
+  unfold pageFile at h
+  split at h <;> split at h
+  · rename_i h1 h2
+    rw [h1] at h2
+    exact w.names p q hp hq (by simpa using h2)
+  · cases h
+  · cases h
+  · injection h with h
+    exact w.names p q hp hq h
+
+theorem pageFile_ne_summary (s : Sys) (p : Nat) (x : SPage) : pageFile s p ≠ .summary x := by
+  unfold pageFile; split <;> simp
+
+theorem url_own {s : Sys} {i : Nat} (h : (s.ob i).kind.ownPage = true) : url s i = some ⟨pageFile s i, none⟩ := by
+  simp [url, pageObject, h]
+
+theorem url_member {s : Sys} (w : WF s) {i p : Nat} (hi : i < s.n) (h : (s.ob i).kind.ownPage = false)
+    (hp : (s.ob i).parent = some p) : url s i = some ⟨pageFile s p, some (s.ob i).name⟩ := by
+  have : p ≠ i := Nat.ne_of_lt (w.parent_lt i p hi hp)
+  simp [url, pageObject, h, hp, this]
+
+theorem mem_written_iff (s : Sys) (f : File) :
+    f ∈ written s ↔ f ∈ summaryFiles s ∨ (∃ p, p ∈ pages s ∧ pageFile s p = f) ∨ f ∈ aliasFiles s := by
+  simp [written, pageFiles, or_assoc]
+
+/-- a page file is among the written files only as the page of that very object -/
+theorem pageFile_written {s : Sys} (w : WF s) {i : Nat} (hi : i < s.n) (h : pageFile s i ∈ written s) : i ∈ pages s := by
+  rcases (mem_written_iff s _).mp h with h | ⟨p, hp, he⟩ | h
+  · -- summary files: only `.index` could coincide, and only with several roots
+    unfold summaryFiles at h
+    simp only [List.mem_append, List.mem_cons, List.mem_singleton, List.not_mem_nil, or_false] at h
+    have hne := pageFile_ne_summary s i
+    rcases h with (h | h | h | h) | h | h
+    · exact absurd h (hne _)
+    · exact absurd h (hne _)
+    · exact absurd h (hne _)
+    · exact absurd h (hne _)
+    · split at h
+      · rename_i hl
+        simp only [List.mem_singleton] at h
+        unfold pageFile at h
+        split at h
+        · rename_i hr; rw [hr] at hl; simp at hl
+        · cases h
+      · simp at h
+    · exact absurd h (hne _)
+  · have hpn : p < s.n := visible_lt (visible_of_mem_pages hp)
+    have := pageFile_inj w hpn hi he
+    exact this ▸ hp
+  · unfold aliasFiles at h
+    split at h
+    · rename_i r hr
+      split at h
+      · simp only [List.mem_singleton] at h
+        unfold pageFile at h
+        split at h
+        · cases h
+        · rename_i hne
+          injection h with h
+          exact absurd (by rw [hr, h]) hne
+      · simp at h
+    · simp at h
+
+theorem mem_anchorsOf_page {s : Sys} (w : WF s) {p : Nat} (hp : p < s.n) (a : Name) :
+    a ∈ anchorsOf s (pageFile s p) ↔
+      p ∈ pages s ∧ ∃ c, c ∈ methods s p ∧ (a = (s.ob c).name ∨ a = fullName s c) := by
+  unfold anchorsOf
+  have hne : ¬ (pageFile s p = .summary .classIndex) := pageFile_ne_summary s p _
+  simp only [hne, if_false, List.append_nil, List.mem_flatMap, List.mem_filter, decide_eq_true_eq,
+    List.mem_cons, List.not_mem_nil, or_false]
+  constructor
+  · rintro ⟨q, ⟨hq, he⟩, c, hc, ha⟩
+    have hqn : q < s.n := visible_lt (visible_of_mem_pages hq)
+    have := pageFile_inj w hqn hp he
+    subst this
+    exact ⟨hq, c, hc, ha⟩
+  · rintro ⟨hq, c, hc, ha⟩
+    exact ⟨p, ⟨hq, rfl⟩, c, hc, ha⟩
+
+theorem mem_methods {s : Sys} {p c : Nat} :
+    c ∈ methods s p ↔ c ∈ (s.ob p).contents ∧ (s.ob c).kind.ownPage = false ∧ visible s c = true := by
+  simp [methods, List.mem_filter]
+
+theorem resolvesHref_full (s : Sys) (pg : File) (u : Url) :
+    resolvesHref s pg ⟨some u.file, u.frag⟩ = true ↔
+      u.file ∈ written s ∧ (∀ a, u.frag = some a → a ∈ anchorsOf s u.file) := by
+  unfold resolvesHref
+  cases hf : u.frag <;> simp [List.contains_iff_mem]
+
+/-- **C11** every visible module, package and class reached through `contents` has its own page at the
+address links use for it -/
+theorem own_page_exists {s : Sys} (w : WF s) {i : Nat} (hr : reachable s i) (hv : visible s i = true)
+    (ho : (s.ob i).kind.ownPage = true) : urlResolves s i = true := by
+  have hp : i ∈ pages s := (mem_pages_iff w i).mpr ⟨hr, hv, ho⟩
+  unfold urlResolves
+  rw [url_own ho]
+  simp only
+  rw [resolvesHref_full]
+  refine ⟨(mem_written_iff s _).mpr (.inr (.inl ⟨i, hp, rfl⟩)), ?_⟩
+  intro a h; cases h
+
+/-- **C11** every visible function and variable reached through `contents` has an anchor on its
+parent's page, at the address links use for it -/
+theorem member_anchor_exists {s : Sys} (w : WF s) {i : Nat} (hr : reachable s i) (hv : visible s i = true)
+    (ho : (s.ob i).kind.ownPage = false) : urlResolves s i = true := by
+  have hi := visible_lt hv
+  rcases reachable_cases w hr with ⟨_, hnone⟩ | ⟨p, hp, hrp, hc⟩
+  · have := Kind.ownPage_of_isModule (w.orphan_module i hi hnone)
+    rw [ho] at this; cases this
+  · have hvp := visible_parent hp hv
+    have hop : (s.ob p).kind.ownPage = true := by
+      rcases w.parent_page i p hi hp with h | h
+      · rw [ho] at h; cases h
+      · exact h
+    have hpp : p ∈ pages s := (mem_pages_iff w p).mpr ⟨hrp, hvp, hop⟩
+    unfold urlResolves
+    rw [url_member w hi ho hp]
+    simp only
+    rw [resolvesHref_full]
+    refine ⟨(mem_written_iff s _).mpr (.inr (.inl ⟨p, hpp, rfl⟩)), ?_⟩
+    intro a ha
+    cases ha
+    exact (mem_anchorsOf_page w (visible_lt hvp) _).mpr ⟨hpp, i, mem_methods.mpr ⟨hc, ho, hv⟩, .inl rfl⟩
+
+theorem fullName_of_parent {s : Sys} {i p : Nat} (hp : (s.ob i).parent = some p) :
+    fullName s i = List.intercalate ['.'] (pathAux s s.n p ++ [(s.ob i).name]) := by
+  unfold fullName
+  rw [pathAux]
+  simp [hp]
+
+/-- **C11** `url o` leads to a written file (and anchor) **iff** `o` is visible and reached through
+`contents` from a root — in particular not for a superseded duplicate `'x 0'`, nor for anything inside one -/
+theorem url_resolves_iff {s : Sys} (w : WF s) {i : Nat} (hi : i < s.n) :
+    urlResolves s i = true ↔ visible s i = true ∧ reachable s i := by
+  constructor
+  · intro h
+    cases ho : (s.ob i).kind.ownPage with
+    | true =>
+      unfold urlResolves at h
+      rw [url_own ho] at h
+      simp only at h
+      rw [resolvesHref_full] at h
+      have hp := pageFile_written w hi h.1
+      have := (mem_pages_iff w i).mp hp
+      exact ⟨this.2.1, this.1⟩
+    | false =>
+      cases hp : (s.ob i).parent with
+      | none =>
+        have := Kind.ownPage_of_isModule (w.orphan_module i hi hp)
+        rw [ho] at this; cases this
+      | some p =>
+        have hpn : p < s.n := Nat.lt_trans (w.parent_lt i p hi hp) hi
+        unfold urlResolves at h
+        rw [url_member w hi ho hp] at h
+        simp only at h
+        rw [resolvesHref_full] at h
+        have hpp := pageFile_written w hpn h.1
+        obtain ⟨_, c, hc, ha⟩ := (mem_anchorsOf_page w hpn _).mp (h.2 _ rfl)
+        obtain ⟨hcc, hco, hcv⟩ := mem_methods.mp hc
+        have hcp := w.contents_parent p c hcc
+        have hcn := w.contents_lt p c hcc
+        rcases ha with ha | ha
+        · -- same name, same parent: same qualified name, hence the same object
+          have : i = c := w.names i c hi hcn (by rw [fullName_of_parent hp, fullName_of_parent hcp, ha])
+          subst this
+          exact ⟨hcv, reachable_child ((mem_pages_iff w p).mp hpp).1 hcc⟩
+        · exact absurd ha (w.spellings i c hi hcn (by rw [hcp]; simp))
+  · rintro ⟨hv, hr⟩
+    cases ho : (s.ob i).kind.ownPage with
+    | true => exact own_page_exists w hr hv ho
+    | false => exact member_anchor_exists w hr hv ho
+
 end Output
